@@ -444,6 +444,10 @@ theorem geometry_good (eb box : Bound α) (hb : BoxOK box) (g : Geom α) : GeoGo
     simp only [geometry]
     apply good_pre
     intro _
+    cases hg : (⟨a, b⟩ : Bound α).isEmpty with
+    | true => simpa using good_nil box
+    | false =>
+    simp only [Bool.false_eq_true, if_false]
     cases he : (clipBound box ⟨a, b⟩).isEmpty with
     | true => simpa using good_nil box
     | false =>
